@@ -7,6 +7,7 @@ HOOK_COMMITS = subprocess.run(["git", "-C", "/repo", "log", "--format=%H %s", "8
 hook_commits = [l.split()[0] for l in HOOK_COMMITS if l and ("verif" in l.split(" ", 1)[1].lower()) and not l.split(" ", 1)[1].startswith("fix:")]
 
 NA = {
+ "C01": "result independent of the chosen physical plan: for a fixed database the result is a pure function of (query, data); the plan choice is made deterministically by the optimizer from that input, there is no schedule, clock, fault or interleaving that makes it vary. Steering the memo through the Coster seam from a seed (considered in DESIGN.md section 5) would be input generation / metamorphic testing in simulator vocabulary, which the brief asks not to do. The history-dependent part of the concern - results going stale or wrong when statistics, indexes or data change under a cached plan - is covered by C11 and C16, which are claimed",
  "C02": "result equals SQL semantics: a pure function of (query, data); deciding it needs an independent SQL evaluator and input generation - no schedule, fault or clock to search",
  "C03": "index lookup = full scan for every filter: pure function of (filter, rows, index shape); the history version of the concern is C16, which is claimed",
  "C04": "ORDER BY / LIMIT slices: pure function of one statement and the data",
